@@ -18,15 +18,41 @@ namespace PM
 
 /-! ### fill_before: the chosen filler types -/
 
+/-- the loop `for i in match.next` of `search`, given `search` itself for the states one level down
+    (a separate definition so that the recursion of `fillSearchO` is structural in the fuel and the
+    kernel can evaluate it) -/
+def fillEdgesO (search : Nat → List TypeId → List Nat → Option (List TypeId) × List Nat) (gen : TypeId → Bool) :
+    (edges : List (TypeId × Nat)) → (types : List TypeId) → (seen : List Nat) → Option (List TypeId) × List Nat
+  | [], _, seen => (none, seen)
+  | (t, nxt) :: rest, types, seen =>
+    if gen t && !seen.contains nxt then
+      match search nxt (types ++ [t]) (nxt :: seen) with
+      | (some r, seen') => (some r, seen')
+      | (none, seen') => fillEdgesO search gen rest types seen'
+    else fillEdgesO search gen rest types seen
+
+/-- `search(match, types)`; returns the answer and the updated seen-list.  `fuel` bounds the recursion
+    depth (each recursive call first marks a new state as seen, so the number of states + 1 suffices:
+    Proofs/FillOrder.lean `fillBeforeTypes_complete`). -/
+def fillSearchO (d : Dfa) (gen : TypeId → Bool) (after : List TypeId) (toEnd : Bool) :
+    (fuel : Nat) → (q : Nat) → (types : List TypeId) → (seen : List Nat) → Option (List TypeId) × List Nat
+  | 0, _, _, seen => (none, seen)
+  | fuel + 1, q, types, seen =>
+    let finished := match d.run q after with
+      | some f => !toEnd || d.validEnd f
+      | none => false
+    if finished then (some types, seen)
+    else fillEdgesO (fillSearchO d gen after toEnd fuel) gen (d.edgesOf q) types seen
+
 /-- `match.fill_before(after, to_end, start_index)` as the list of filler *types*
     (`after` = the types of `after[start_index:]`); `none` = Python `None`.
-    The search itself is `PM.fillSearch` (PM/Fill.lean; it is already in the order of the code: depth
-    first over `match.next` in edge order, one seen-list shared by the whole search), here with the
-    schema's own notion of a generatable type — so the theorems of Props/C15.lean about `fillBefore`
-    are theorems about the search the Fitter uses. -/
+    `fillSearchO` is the search of PM/Fill.lean (`PM.fillSearch`: depth first over `match.next` in edge
+    order, one seen-list shared by the whole search) written so that the kernel can evaluate it;
+    Proofs/FillOrder.lean `fillBeforeTypes_eq` proves the two equal, so the theorems of Props/C15.lean
+    about `fillBefore` are theorems about the search the Fitter uses. -/
 def fillBeforeTypes (S : Schema) (d : Dfa) (q : Nat) (after : List TypeId) (toEnd : Bool) :
     Option (List TypeId) :=
-  fillBefore d S.generatable q after toEnd
+  (fillSearchO d S.generatable after toEnd (d.size + 1) q [] [q]).1
 
 /-! ### find_wrapping: breadth-first over wrapper types -/
 
@@ -35,6 +61,11 @@ structure WrapItem where
   state : Nat
   chain : List TypeId       -- wrappers chosen so far, outermost first
 deriving Repr, Inhabited
+
+/-- `not type.is_leaf and not type.has_required_attrs()` — the same function as `Schema.wrapOk` of
+    PM/Fill.lean (Proofs/FillOrder.lean `wrappable_eq`, by `rfl`), kept under this name for the Fitter's guards -/
+def Schema.wrappable (S : Schema) (t : TypeId) : Bool :=
+  !(S.nodeType t).isLeaf && !(S.nodeType t).attrs.any (fun a => !a.hasDefault)
 
 /-- the body of `for i in range(len(match.next))`: appended items and the grown seen-set
     (`S.wrapOk t` = `not type.is_leaf and not type.has_required_attrs()`, PM/Fill.lean) -/
